@@ -1,5 +1,6 @@
 import WhVerif.Model.C04File
 import WhVerif.Lemmas.C04
+import WhVerif.Lemmas.C04Header
 /-! Helper lemmas for the file-level part of C04 (`Model/C04File.lean`): `groupby` versus the augmenter's
     one-record look-ahead, and lifting per-record facts to the whole file. -/
 namespace WhVerif.C04
@@ -244,18 +245,18 @@ def PrevInv (cfg : Cfg) (pr pw : Option Nat) : Prop :=
   (∀ p, pr = some p → anyPhased cfg p = true → pw = some p) ∧
   (∀ q, pw = some q → ∃ p, pr = some p ∧ q ≤ p)
 
-theorem readChrom_cons_ok {os : Bool} {prev pl pl' : Option Nat} {r : Record} {rs : List Record} {flags : List Bool}
-    (h : readChrom os prev pl (r :: rs) = .ok (flags, pl')) :
-    (kindOk os r = false ∧ ∃ f, flags = false :: f ∧ readChrom os prev pl rs = .ok (f, pl')) ∨
+theorem readerRows_cons_ok {os : Bool} {prev pl pl' : Option Nat} {r : Record} {rs : List Record} {flags : List Bool}
+    (h : readerRows os prev pl (r :: rs) = .ok (flags, pl')) :
+    (kindOk os r = false ∧ ∃ f, flags = false :: f ∧ readerRows os prev pl rs = .ok (f, pl')) ∨
     (kindOk os r = true ∧ beforePrev prev r.pos = false ∧ prev = some r.pos ∧
-      ∃ f, flags = false :: f ∧ readChrom os prev pl rs = .ok (f, pl')) ∨
+      ∃ f, flags = false :: f ∧ readerRows os prev pl rs = .ok (f, pl')) ∨
     (kindOk os r = true ∧ beforePrev prev r.pos = false ∧ prev ≠ some r.pos ∧
-      ∃ f pl1, ploidyStep pl r.calls = .ok pl1 ∧ flags = true :: f ∧ readChrom os (some r.pos) pl1 rs = .ok (f, pl')) := by
-  rw [readChrom] at h
+      ∃ f pl1, ploidyStep pl r.calls = .ok pl1 ∧ flags = true :: f ∧ readerRows os (some r.pos) pl1 rs = .ok (f, pl')) := by
+  rw [readerRows] at h
   cases hk : kindOk os r
   · left
     simp only [hk, Bool.not_false, if_true] at h
-    cases hrec : readChrom os prev pl rs with
+    cases hrec : readerRows os prev pl rs with
     | error e => rw [hrec] at h; cases h
     | ok v =>
       obtain ⟨f, pl1⟩ := v
@@ -270,7 +271,7 @@ theorem readChrom_cons_ok {os : Bool} {prev pl pl' : Option Nat} {r : Record} {r
       · left
         have hd' : (prev == some r.pos) = true := by simp [hd]
         simp only [hd', if_true] at h
-        cases hrec : readChrom os prev pl rs with
+        cases hrec : readerRows os prev pl rs with
         | error e => rw [hrec] at h; cases h
         | ok v =>
           obtain ⟨f, pl1⟩ := v
@@ -285,7 +286,7 @@ theorem readChrom_cons_ok {os : Bool} {prev pl pl' : Option Nat} {r : Record} {r
         | ok pl1 =>
           rw [hpl] at h
           simp only at h
-          cases hrec : readChrom os (some r.pos) pl1 rs with
+          cases hrec : readerRows os (some r.pos) pl1 rs with
           | error e => rw [hrec] at h; cases h
           | ok v =>
             obtain ⟨f, pl2⟩ := v
@@ -297,17 +298,17 @@ theorem readChrom_cons_ok {os : Bool} {prev pl pl' : Option Nat} {r : Record} {r
 
 theorem agree_aux (cfg : Cfg) (hmav : cfg.mav = false) (rs : List Record) :
     ∀ (pr pw pl pl' : Option Nat) (flags : List Bool), PrevInv cfg pr pw →
-      readChrom cfg.onlySnvs pr pl rs = .ok (flags, pl') →
+      readerRows cfg.onlySnvs pr pl rs = .ok (flags, pl') →
       reachFlags cfg pw rs = List.zipWith (fun k r => k && anyPhased cfg r.pos) flags rs := by
   induction rs with
   | nil =>
     intro pr pw pl pl' flags _ h
-    simp only [readChrom, Except.ok.injEq, Prod.mk.injEq] at h
+    simp only [readerRows, Except.ok.injEq, Prod.mk.injEq] at h
     rw [← h.1]; rfl
   | cons r rs ih =>
     intro pr pw pl pl' flags hinv h
     simp only [reachFlags, writeRecord_prev]
-    rcases readChrom_cons_ok h with ⟨hk, f, rfl, hrec⟩ | ⟨hk, hsorted, hpr, f, rfl, hrec⟩ | ⟨hk, hsorted, hnodup, f, pl1, _, rfl, hrec⟩
+    rcases readerRows_cons_ok h with ⟨hk, f, rfl, hrec⟩ | ⟨hk, hsorted, hpr, f, rfl, hrec⟩ | ⟨hk, hsorted, hnodup, f, pl1, _, rfl, hrec⟩
     · have hreach : reaches cfg pw r = false := by rw [reaches_eq cfg hmav, hk]; rfl
       rw [hreach]
       simp only [Bool.false_eq_true, if_false, List.zipWith_cons_cons, Bool.false_and, List.cons.injEq, true_and]
@@ -372,5 +373,129 @@ theorem mem_dedup {a : String} {l : List String} : a ∈ dedup l ↔ a ∈ l := 
 
 theorem mem_firstUse {a : String} {l : List String} : a ∈ (dedup l.reverse).reverse ↔ a ∈ l := by
   simp [mem_dedup]
+
+theorem defined_foldContigs_new (cs : List String) (h : List HLine) {c : String} (hc : c ∈ cs) :
+    defined (cs.foldl (fun h c => addLine h ⟨"contig", some c, "", "", ""⟩) h) "contig" c = true := by
+  induction cs generalizing h with
+  | nil => cases hc
+  | cons a rest ih =>
+    rcases List.mem_cons.mp hc with rfl | hc
+    · exact defined_foldContigs rest _ (defined_addLine_self h ⟨"contig", some c, "", "", ""⟩ c rfl)
+    · exact ih _ hc
+
+theorem defined_addFormats_new {fs : List String} {h h' : List HLine} (hout : addFormats h fs = some h')
+    {f : String} (hf : f ∈ fs) : defined h' "FORMAT" f = true := by
+  induction fs generalizing h with
+  | nil => cases hf
+  | cons a rest ih =>
+    simp only [addFormats] at hout
+    split at hout
+    · rename_i num typ _
+      rcases List.mem_cons.mp hf with rfl | hf
+      · exact defined_addFormats hout (defined_addLine_self _ ⟨"FORMAT", some f, num, typ, ""⟩ f rfl)
+      · exact ih hout hf
+    · cases hout
+
+theorem defined_addInfos_new {fs : List String} {h h' : List HLine} (hout : addInfos h fs = some h')
+    {f : String} (hf : f ∈ fs) : defined h' "INFO" f = true := by
+  induction fs generalizing h with
+  | nil => cases hf
+  | cons a rest ih =>
+    simp only [addInfos] at hout
+    split at hout
+    · rename_i num typ _
+      rcases List.mem_cons.mp hf with rfl | hf
+      · exact defined_addInfos hout (defined_addLine_self _ ⟨"INFO", some f, num, typ, ""⟩ f rfl)
+      · exact ih hout hf
+    · cases hout
+
+/-- everything the body uses is defined by the output header -/
+theorem outputHeader_covers {tag : Tag} {cl : Bool} {h h' : List HLine} {cs fs is : List String}
+    (hout : outputHeader tag cl h cs fs is = some h') :
+    (∀ c ∈ cs, defined h' "contig" c = true) ∧ (∀ f ∈ fs, defined h' "FORMAT" f = true) ∧
+    (∀ i ∈ is, defined h' "INFO" i = true) ∧ defined h' "FORMAT" tag.key = true := by
+  unfold outputHeader at hout
+  split at hout
+  · cases hout
+  · simp only at hout
+    split at hout
+    · cases hout
+    · rename_i h2 hf
+      split at hout
+      · cases hout
+      · rename_i h3 hi
+        simp only [Option.some.injEq] at hout
+        subst hout
+        -- a definition present in h3 survives the last three steps
+        have fin : ∀ key id, key ≠ "phasing" → defined h3 key id = true →
+            defined (addLine (removeFirstPhasing (if cl = true then h3 ++ [⟨"commandline", none, "", "", ""⟩] else h3))
+              ⟨"FORMAT", some (match tag with | .PS => ("PS", "1", "Integer") | .HP => ("HP", ".", "String")).1,
+                (match tag with | .PS => ("PS", "1", "Integer") | .HP => ("HP", ".", "String")).2.1,
+                (match tag with | .PS => ("PS", "1", "Integer") | .HP => ("HP", ".", "String")).2.2, ""⟩) key id = true := by
+          intro key id hk hd
+          apply defined_addLine
+          apply defined_removeFirstPhasing _ hk
+          split
+          · exact defined_append_left hd
+          · exact hd
+        refine ⟨?_, ?_, ?_, ?_⟩
+        · intro c hc
+          apply fin _ _ (by decide)
+          apply defined_addInfos hi
+          apply defined_addFormats hf
+          by_cases hd : defined h "contig" c = true
+          · exact defined_foldContigs _ _ hd
+          · apply defined_foldContigs_new
+            simp only [List.mem_filter, mem_firstUse]
+            exact ⟨hc, by simpa using hd⟩
+        · intro f hfm
+          apply fin _ _ (by decide)
+          apply defined_addInfos hi
+          by_cases hd : defined h "FORMAT" f = true
+          · exact defined_addFormats hf (defined_foldContigs _ _ hd)
+          · apply defined_addFormats_new hf
+            apply List.mem_append_right
+            simp only [List.mem_filter, mem_firstUse]
+            exact ⟨hfm, by simpa using hd⟩
+        · intro i hii
+          apply fin _ _ (by decide)
+          by_cases hd : defined h "INFO" i = true
+          · exact defined_addInfos hi (defined_addFormats hf (defined_foldContigs _ _ hd))
+          · apply defined_addInfos_new hi
+            simp only [List.mem_filter, mem_firstUse]
+            exact ⟨hii, by simpa using hd⟩
+        · cases tag <;> exact defined_addLine_self _ _ _ rfl
+
+/-! ## the writer's flags along a block -/
+
+theorem writeChrom_getElem_reach (cfg : Cfg) (rs : List Record) (prev : Option Nat) (i : Nat) (o : Out)
+    (h : (writeChrom cfg prev rs)[i]? = some o) :
+    ∃ p r, rs[i]? = some r ∧ o = writeRecord cfg p r ∧ (reachFlags cfg prev rs)[i]? = some (reaches cfg p r) := by
+  induction rs generalizing prev i with
+  | nil => simp [writeChrom] at h
+  | cons r rs ih =>
+    cases i with
+    | zero =>
+      simp only [writeChrom, List.getElem?_cons_zero, Option.some.injEq] at h
+      exact ⟨prev, r, rfl, h.symm, rfl⟩
+    | succ i =>
+      simp only [writeChrom, List.getElem?_cons_succ] at h
+      obtain ⟨p, r', h1, h2, h3⟩ := ih _ i h
+      exact ⟨p, r', by simpa using h1, h2, by simpa [reachFlags] using h3⟩
+
+theorem writeRecord_changes_of_not_reaches (cfg : Cfg) (prev : Option Nat) (r : Record) (h : reaches cfg prev r = false) :
+    (writeRecord cfg prev r).changes = [] := by
+  unfold writeRecord
+  simp [h]
+
+/-! ## text of a sample column -/
+
+theorem renderEntries_append (fmt : List String) (k : String) (c : Call) (hk : k ≠ "GT") :
+    renderEntries (fmt ++ [k]) c = renderEntries fmt c ++ [renderVal (c.get k)] := by
+  simp [renderEntries, hk]
+
+theorem renderEntries_getElem (fmt : List String) (c : Call) (i : Nat) (k : String) (h : fmt[i]? = some k) (hk : k ≠ "GT") :
+    (renderEntries fmt c)[i]? = some (renderVal (c.get k)) := by
+  simp [renderEntries, List.getElem?_map, h, hk]
 
 end WhVerif.C04
